@@ -2,6 +2,8 @@ package e1
 
 import (
 	"fmt"
+	"os"
+	"path/filepath"
 	"strings"
 
 	"vctl/internal/report"
@@ -197,6 +199,64 @@ func ProcessSchedPart(run *report.Run, st *Setup, n int, kinds map[string]bool) 
 					} else {
 						run.Count("divergence_other_property:"+v.Kind, 1)
 						Debugf("case %d: other-property divergence %s: %s | %s", i, v.Kind, v.Sig, v.What)
+					}
+				}
+			}
+		}
+		// A dependant whose cached dependencies have lost their blobs (load_outputs=minimal):
+		// every such dependency has to be re-run before the dependant. However that is
+		// organised, the commands running at one time must stay within num_workers and every
+		// command must see current outputs of its direct dependencies. "once" is excused under
+		// cache faults, and so is the start order read off the trace: a transitive dependency
+		// that was a cache hit has finished (restored) as far as the walk is concerned, and may
+		// be re-run later on behalf of another dependant.
+		if minimal && !keep {
+			states, err := env.Spec.Eval()
+			var top *spec.Target
+			nd := 0
+			if err == nil {
+				for _, u := range env.Spec.Targets {
+					n := 0
+					for _, d := range states[u.Label()].DirectDeps {
+						if dt := env.Spec.Target(d); dt != nil && len(dt.AllOuts()) > 0 && !dt.HasTag("no-cache") {
+							n++
+						}
+					}
+					if n > nd {
+						top, nd = u, n
+					}
+				}
+			}
+			if top != nil && nd >= 2 {
+				env.Apply(func() string { top.Salt = r.Word(4, 8); return "command-change" })
+				env.WipeOutputs()
+				lost := 0
+				if ents, err := os.ReadDir(filepath.Join(env.CacheDir(), "cas")); err == nil {
+					for _, en := range ents {
+						if os.Remove(filepath.Join(env.CacheDir(), "cas", en.Name())) == nil {
+							lost++
+						}
+					}
+				}
+				for mk := range env.Memo {
+					env.Memo[mk] = "lost"
+				}
+				env.Logf("command of %s changed (%d cached dependencies with outputs), workspace wiped, all %d blobs lost (results kept)", top.Label(), nd, lost)
+				p, obs, vs, err := env.Step(BuildOpts{}, cfg, "dependencies-lost-their-blobs", false)
+				if err != nil {
+					run.Infra(err.Error())
+					return
+				}
+				run.Eval(1)
+				run.Count("process_builds", 1)
+				run.Count("builds_after_all_blobs_were_lost(minimal)", 1)
+				ov, maxOpen := TraceOrderViolations(env.Spec, p, obs, gcfg.NumWorkers)
+				run.Count(fmt.Sprintf("max_concurrency_seen_with_%d_workers=%d", gcfg.NumWorkers, maxOpen), 1)
+				for _, v := range append(vs, ov...) {
+					if kinds[v.Kind] && v.Kind != "once" && v.Kind != "order" {
+						keep = !run.Violation("process "+v.Sig+" after-lost-blobs", v.What, mkReplay(i, env, obs)) || keep
+					} else {
+						run.Count("divergence_other_property:"+v.Kind, 1)
 					}
 				}
 			}
